@@ -173,6 +173,7 @@ class World:
         self.brackets = {"LOCATING": 0, "CONNECTION": 0}
         self.tasks = []
         self.reset_checks = []
+        self.reset_due = False  # a ping arrived in an error state: the table demands a reset
         with self.loop.running():
             self.man = Man(self)
             orig = self.man._handle_event
@@ -242,9 +243,11 @@ class World:
             self.arm = False
             self.gate = self.loop.create_future()
             self.gate_event = event.name
-            await self.gate
-            self.gate = None
-            self.gate_event = None
+            try:
+                await self.gate
+            finally:  # also when the suspended task is cancelled (spa.disconnect cancels the "SPA" tasks)
+                self.gate = None
+                self.gate_event = None
 
     def settle(self):
         self.loop.run_for(0.35)
@@ -284,7 +287,12 @@ class World:
                 async def raise_it():
                     await spa._event_handler(e)
 
-                self.tasks.append(self.loop.create_task(raise_it(), name=f"HARNESS:spa:{arg}"))
+                # the real spa raises these from its own tasks, registered with the manager under the "SPA" key
+                # (ping loop, refresh loop, consumers) - so spa.disconnect()'s cancel_key_tasks("SPA") hits them
+                self.man.add_task(raise_it(), f"harness {arg} #{len(self.tasks)}", "SPA")
+                self.tasks.append(self.man._tasks[-1])
+                if e == E.RUNNING_PING_RECEIVED and m.spa_state in ERRS:
+                    self.reset_due = True
             elif kind == "user":
                 async def do():
                     if arg == "reset":
@@ -302,8 +310,15 @@ class World:
             elif ev == "suspend-next":
                 self.arm = True
             elif ev == "release":
-                self.gate.set_result(True)
+                if not self.gate.done():
+                    self.gate.set_result(True)
         self.settle()
+        if self.man.spa_state not in ERRS:
+            self.reset_due = False
+        elif self.reset_due and self.gate is None and not any(not t.done() for t in self.tasks):
+            self.fail("reset-not-completed", f"a ping was received in {self.man.spa_state.name} but, with nothing suspended any more, the "
+                      f"manager is still in that state (facade {'set' if self.man._facade else 'None'}, spa "
+                      f"{'set' if self.man._spa else 'None'}): the reset the table demands never completed")
         # harness-raised spa events / user calls that ended with an exception
         for t in self.tasks:
             if t.done() and not t.cancelled() and t.exception() is not None and not getattr(t, "_seen", False):
@@ -328,14 +343,14 @@ class World:
         else:
             pos = "run"
         d = m._spa_descriptors
-        blocked = tuple(sorted(t.get_name() for t in self.tasks if not t.done()))
+        blocked = tuple(sorted(t.get_name().split(' #')[0] for t in self.tasks if not t.done()))
         return (
             m.spa_state.name, m._facade is not None, m._spa is not None,
             bool(m._spa and m._spa.is_connected), None if d is None else len(d),
             m._status_sensor is not None, m._reconnect_button is not None, m._ping_sensor is not None,
             m._status_sensor.state if m._status_sensor else None,
             pos, self.arm, self.gate_event, blocked,
-            self.ann, self.prev_state.name,
+            self.ann, self.prev_state.name, self.reset_due,
             tuple(sorted(self.brackets.items())),
         )
 
